@@ -18,6 +18,16 @@ EXPLANATION = (
     'under a None-test; (7) the training driver substitutes the tag ordinal only when lower is None. Decides these necessary '
     'conditions, not the database comparison semantics per kind.'
 )
+MANIFEST = {
+    'level': 'Complete static decision of the finite part of the property (the semantic/ordering truth table of the three '
+             'delivery semantics over consecutive windows, exhaustively enumerated) plus type-directed and path rules over '
+             'every function of forml/ that carries a bound: the structural necessary conditions of the tiling. This is '
+             'the right level because the tiling argument touches data only through comparisons against a shared bound.',
+    'note': 'Trusted: stdlib ast; meaning of operator.lt/le/gt/ge; annotations (Optional[dsl.Native]) as the source of bound '
+            'types. Not decided: cast results of particular value representations and the database comparison semantics.',
+    'technique': 'static analysis: enum/table extraction + exhaustive ordering case split, annotation-typed truthiness lint '
+                 '(R-TRUTHY), resolved-callee argument-order lint (R-ARGORDER), lexical guard/dominance rules',
+}
 ASSUMPTIONS = [
     'operator.lt/le/gt/ge have their standard meaning; the storage engine compares ordinals consistently with the kind cast',
     'bounds form an increasing sequence and window i+1 uses the upper bound of window i as its lower bound',
